@@ -8,6 +8,11 @@ Line-protocol driver for the C09 model (`lake build c09drv`). Numbers are hexade
                       TXS   = `-` | tx `|` tx …; tx = `~` | ev `;` ev …; ev = `<from>` [`:` k `.` k …]   -> ok | err:<e>
   storen N            N blocks without transactions and with an empty bloom                   -> ok | err:<e>
   revert | snap | restart                                                                     -> ok | err:<e>
+  storefail | revertfail   a Store / RevertHead whose commit failed: the in-memory filter is reset   -> ok
+  restartfault             restart whose lazy initialisation hits a transient error (remembered)     -> ok
+  restartcrash K           restart that dies after K fill steps of the initialiser, then a restart   -> ok
+  tamper del W | tamper mov A B   corrupt the database behind the node's back: delete persisted window W /
+                           store window A's filter under key B (ties the notfound / bounds branches)   -> ok
   prune K             pruner.PruneUpto(K): retention floor K                                  -> ok
   mark                remember the current state for `explain`                                -> ok
   save | load         remember / restore the node (kept across `cfg`; the harness loads the long
@@ -85,6 +90,7 @@ def showErr : Err → String
   | .range => "err:range"
   | .bounds => "err:bounds"
   | .pruned => "err:pruned"
+  | .io => "err:io"
 
 def showRes : Option Err → String
   | none => "ok"
@@ -105,7 +111,7 @@ def dump (n : Node) : String :=
     | some (a, nx) => s!"{a.from_}/{nx}"
     | none => "none"
   let c := ",".intercalate (n.cache.map (fun x => toString x.1))
-  s!"P=[{p}] S={s} F={n.floor} R={n.running.from_}/{n.next} C=[{c}] H={n.chain.length}"
+  s!"P=[{p}] S={s} F={effFloor n} R={n.running.from_}/{n.next} C=[{c}] H={n.chain.length}"
 
 def explain (cfg : Cfg) (n : Node) (b : Nat) : String :=
   let w := b - b % cfg.W
@@ -120,7 +126,8 @@ def explain (cfg : Cfg) (n : Node) (b : Nat) : String :=
         | none => ("none", none)
   match agg?, n.chain[b]? with
   | some a, some blk => src ++ (if blk.bloom.all (a.test b) then " sound" else " stale")
-  | _, _ => src ++ " stale"
+  | none, some _ => src ++ " missing"
+  | _, none => "beyond-chain"
 
 def storeN (cfg : Cfg) : Nat → Node → Node × Option Err
   | 0, n => (n, none)
@@ -152,7 +159,25 @@ def step (st : St) (line : String) : St × String :=
     | some k => let r := storeN st.cfg k st.node; ({ st with node := r.1 }, showRes r.2)
     | none => (st, "bad-op")
   | ["revert"] => let r := revert st.cfg st.node; ({ st with node := r.1 }, showRes r.2)
-  | ["snap"] => ({ st with node := snap st.node }, "ok")
+  | ["snap"] => let r := snap st.node; ({ st with node := r.1 }, showRes r.2)
+  | ["storefail"] => ({ st with node := reinit st.cfg st.node }, "ok")
+  | ["revertfail"] => ({ st with node := reinit st.cfg st.node }, "ok")
+  | ["restartfault"] => ({ st with node := Juno.C09.step st.cfg st.node .restartFault }, "ok")
+  | ["restartcrash", k] =>
+    match hexToNat? k with
+    | some k => ({ st with node := Juno.C09.step st.cfg st.node (.restartCrash k) }, "ok")
+    | none => (st, "bad-op")
+  | ["tamper", "del", w] =>
+    match hexToNat? w with
+    | some w => ({ st with node := { st.node with persisted := st.node.persisted.del w } }, "ok")
+    | none => (st, "bad-op")
+  | ["tamper", "mov", a, b] =>
+    match hexToNat? a, hexToNat? b with
+    | some a, some b =>
+      match st.node.persisted.lookup a with
+      | some v => ({ st with node := { st.node with persisted := st.node.persisted.put b v } }, "ok")
+      | none => (st, "err:notfound")
+    | _, _ => (st, "bad-op")
   | ["restart"] => let r := restart st.cfg st.node; ({ st with node := r.1 }, showRes r.2)
   | ["prune", k] =>
     match hexToNat? k with
